@@ -541,7 +541,7 @@ pub fn handle<'a>(
             }
             if let Some(out_matches) = matches.subcommand_matches(CMD_OUT) {
                 if let Some(delete_matches) = out_matches.subcommand_matches(CMD_DELETE) {
-                    return handle_out_delete(&config, delete_matches, output_options);
+                    return handle_out_delete(&config, delete_matches, output_options, work_path);
                 }
             }
             Err(MonorailError::from("Command not recognized"))
@@ -554,6 +554,7 @@ fn handle_out_delete<'a>(
     config: &'a core::Config,
     matches: &'a ArgMatches,
     output_options: &OutputOptions<'a>,
+    work_path: &'a path::Path,
 ) -> Result<i32, MonorailError> {
     let rt = Runtime::new()?;
     #[cfg(pnordahl_monorail_verif)]
@@ -563,7 +564,10 @@ fn handle_out_delete<'a>(
     #[cfg(pnordahl_monorail_verif)]
     crate::verif::point("lock.post:out_delete");
     let i = app::out::OutDeleteInput::try_from(matches)?;
-    let res = app::out::out_delete(&config.out_dir, &i);
+    // like every other command, resolve the output directory against the directory of the
+    // configuration file, not against the current directory
+    let out_path = work_path.join(&config.out_dir);
+    let res = app::out::out_delete(&out_path.display().to_string(), &i);
     write_result(&res, output_options)?;
     Ok(get_code(res.is_err()))
 }
